@@ -28,7 +28,7 @@ def digests(prop, seed, n, workers=1):
         out = []
         for idx in range(n):
             case = spec.generate(core.rng_for(seed, spec.sim, spec.prop, idx), idx, "quick")
-            o = spec.execute(case)
+            o = spec.guarded_execute(case)
             out.append("%s:%s:%s" % (o.status, o.sig or "", o.digest))
         return out
     import multiprocessing
@@ -48,7 +48,7 @@ def _part(args):
     out = []
     for idx in range(a, b):
         case = spec.generate(core.rng_for(seed, spec.sim, spec.prop, idx), idx, "quick")
-        o = spec.execute(case)
+        o = spec.guarded_execute(case)
         out.append("%s:%s:%s" % (o.status, o.sig or "", o.digest))
     return out
 
